@@ -87,7 +87,8 @@ def signature(case, out):
     fam = {"put": "put/putfo", "putfo": "put/putfo", "get": "get/getfo", "getfo": "get/getfo", "pfile": "pipelined SFTPFile"}[case["op"]]
     if out["status"] == "hang":
         tail = "->".join(out["chain"][-4:-2]) if len(out["chain"]) >= 4 else "->".join(out["chain"])
-        what = "no fault" if not f else "%s answered with %s" % (f[0].upper(), "a short count" if f[0].startswith("short") else "status " + ("EOF" if f[2] == 1 else "error"))
+        what = ("no fault" if not f else "the server stopped answering WRITEs" if f[0] == "stall" else
+                "%s answered with %s" % (f[0].upper(), "a short count" if f[0].startswith("short") else "status " + ("EOF" if f[2] == 1 else "error")))
         return "hang: %s (%s) blocked in %s with every request answered, after %s" % (fam, opts(case), tail, what)
     if not f and (case.get("declared") is not None or case.get("stat_lag")):
         return ("%s (%s): the declared/stat'ed file size differs from what the source yields and the upload is not "
@@ -97,6 +98,9 @@ def signature(case, out):
                 "(destination is %s)" % (opts(case), "a prefix of the source" if out.get("dest_is_prefix") else "different"))
     if not f:
         return "%s (%s): fault-free transfer returns but destination != source" % (fam, opts(case))
+    if f[0] == "stall":
+        return ("%s returns normally although the connection was gone before close() started and the statuses of the last "
+                "pipelined WRITEs were never received (server holds fewer chunks than the source)" % fam)
     if f[0] == "write":
         how = ("its status was read but raised nothing" if out.get("write_status_examined", out.get("fault_status_examined"))
                else "its status is discarded unread")
@@ -120,7 +124,8 @@ def signature(case, out):
 
 
 PLAN_CLASS = {"ok": "CLOSE succeeds", "status:1": "CLOSE answered with EOF status", "drop_at_close": "connection lost at CLOSE",
-              "drop_before_close": "connection lost before CLOSE is sent"}
+              "drop_before_close": "connection lost before CLOSE is sent",
+              "gone_before_close": "connection gone after the last WRITE and before close starts"}
 
 
 def plan_class(plan):
@@ -240,16 +245,32 @@ def run(ctx):
             if upload and not stopped:
                 ks = list(range(nreq)) if nreq <= 4 else [0, nreq // 2, nreq - 1]
                 wcodes = [3, 4] if ctx.quick else [1, 3, 4, 8]
-                plans = ["status:4", "status:1", "drop_at_close", "drop_before_close"] + ([] if ctx.quick else ["status:3", "status:8"])
+                plans = ["status:4", "status:1", "drop_at_close", "drop_before_close", "gone_before_close"] + ([] if ctx.quick else ["status:3", "status:8"])
                 cells = [(None, None, pl) for pl in plans] + [(k, c, pl) for k in ks for c in wcodes for pl in plans]
+                # the server stalls from write k on (neither applied nor answered) and the connection is gone before close()
+                cells += [(k, "stall", "gone_before_close") for k in (ks if nreq else [])]
                 for k, code, plan in cells:
                     if time.time() > end:
                         stopped = True
                         break
                     if nreq == 0 and plan == "drop_before_close":
                         continue
-                    case = dict(shape, fault=None if k is None else ["write", k, code], close=plan, nwrites=nreq)
+                    if nreq == 0 and plan == "gone_before_close":
+                        continue
+                    fl = None if k is None else ["stall", k] if code == "stall" else ["write", k, code]
+                    case = dict(shape, fault=fl, close=plan, nwrites=nreq)
                     o = X.run_case(case, root)
+                    if code == "stall":
+                        if o["status"] == "ok" and not (o.get("close_fault_delivered") and o.get("stalled_writes")):
+                            ctx.case(case, nontrivial=False)
+                            ctx.count("fault_not_reached")
+                            continue
+                        ctx.case(case, sample=dict(case, observed={x: o.get(x) for x in ("outcome", "exc", "stalled_writes")})
+                                 if k == 0 and len(ctx.samples) < 6 else None)
+                        ctx.count("connection_gone_with_stalled_writes_cells")
+                        ctx.count("writes_never_answered", o.get("stalled_writes", 0))
+                        judge(ctx, case, o)
+                        continue
                     if o["status"] == "ok" and not (o.get("close_fault_delivered") and (k is None or o.get("fault_delivered"))):
                         ctx.case(case, nontrivial=False)
                         ctx.count("fault_not_reached")
@@ -384,7 +405,8 @@ def run(ctx):
     ctx.require("write_and_close_fault_cells", ctx.pick(300, 3000))
     ctx.require("close_fault_only_cells", ctx.pick(80, 400))
     ctx.require("rejected_write_outcomes_checked", ctx.pick(600, 6000))
-    for pl in ("status:4", "status:1", "drop_at_close", "drop_before_close"):
+    ctx.require("connection_gone_with_stalled_writes_cells", ctx.pick(40, 400))
+    for pl in ("status:4", "status:1", "drop_at_close", "drop_before_close", "gone_before_close"):
         ctx.require("cells_" + plan_class(pl).replace(" ", "_"), ctx.pick(60, 500))
     ctx.require("short_source_cells", ctx.pick(60, 150))
     ctx.require("source_short_reads_returned", ctx.pick(500, 3000))
